@@ -342,6 +342,7 @@ func (r *regRun) nameCases(n int) {
 		all = append(keep, all[:n]...)
 	}
 	seen := map[string]string{} // real address -> inputs
+	prevRoot := ""
 	lists := [][]string{nil, {n1.DB.Identity().ID, n2.DB.Identity().ID}}
 	// first the address function alone (no local marker involved): whatever it accepts must be injective
 	det := map[string]string{}
@@ -391,6 +392,27 @@ func (r *regRun) nameCases(n int) {
 				if p, err := address.Parse(addr); err != nil || p.String() != addr || !p.GetRoot().Equals(s.Address().GetRoot()) || p.GetPath() != s.Address().GetPath() {
 					r.violate("roundtrip", "printed address does not parse back ("+inputs+")", addr, fmt.Sprint(p, err))
 				}
+				// an address string that climbs out of the root of the database created before and names this one: if it is
+				// accepted, what it prints must parse back to what it is, and opening it must not yield this database's
+				// address over the other database's manifest
+				if prevRoot != "" && prevRoot != s.Address().GetRoot().String() {
+					climb := "/orbitdb/" + prevRoot + "/../" + s.Address().GetRoot().String() + "/" + s.Address().GetPath()
+					r.res.Comparisons++
+					r.res.Stats["climbing_addresses"]++
+					if p, err := address.Parse(climb); err == nil {
+						if q, err2 := address.Parse(p.String()); err2 != nil || !q.GetRoot().Equals(p.GetRoot()) || q.GetPath() != p.GetPath() {
+							r.violate("roundtrip", fmt.Sprintf("the address string %s is accepted with root %s and path %q, and prints as %s, which does not parse back to the same root and path", climb, p.GetRoot(), p.GetPath(), p.String()), climb, fmt.Sprint(q, err2))
+						}
+						mark("names: Open %s", climb)
+						if s3, err := n2.DB.Open(ctx, climb, &orbitdb.CreateDBOptions{}); err == nil {
+							if s3.Address().String() == addr && (s3.Type() != typeOf(t) || fmt.Sprint(acList(s3)) != fmt.Sprint(acList(s))) {
+								r.violate("open-type", fmt.Sprintf("opening %s yields a store that prints the address %s with the type and write list of another database (%s, %v)", climb, addr, s3.Type(), acList(s3)), typeOf(t), s3.Type())
+							}
+							_ = s3.Close()
+						}
+					}
+				}
+				prevRoot = s.Address().GetRoot().String()
 				// another peer computes the same address and opens the same database
 				ac2 := sim.AccessFor(acList(s))
 				if l != nil {
